@@ -313,5 +313,5 @@ def run(ctx):
                     continue
                 judge(ctx, {"kind": "config", "key": key, "value": value, "how": how})
     ctx.exhaustive["configuration pool: 9 keys x 12 values x 3 ways of setting"] = {"complete": True}
-    per = 50 if ctx.tier == "quick" else 700
+    per = 200 if ctx.tier == "quick" else 2000
     ctx.parallel(_worker, [(k, per) for k in range(core.NPROC)])
